@@ -7,6 +7,7 @@ package main
 import (
 	"fmt"
 	"go/types"
+	"math"
 	"strconv"
 	"strings"
 
@@ -100,6 +101,30 @@ func init() {
 		"errors.As":    ixErrorsAs,
 		"github.com/AdguardTeam/golibs/errors.Is": ixErrorsIs,
 		"github.com/AdguardTeam/golibs/errors.As": ixErrorsAs,
+
+		// ---- math bit casts (concrete floats only) ----
+		"math.Float64bits": func(in *Interp, c *frame, fn *ssa.Function, a []Value) Value {
+			return mkConst(math.Float64bits(a[0].(float64)), 64)
+		},
+		"math.Float64frombits": func(in *Interp, c *frame, fn *ssa.Function, a []Value) Value {
+			t := a[0].(*Term)
+			if !t.IsConst() {
+				panic(unsupported{"math.Float64frombits of a symbolic value"})
+			}
+			return math.Float64frombits(t.val)
+		},
+		"math.Float32bits": func(in *Interp, c *frame, fn *ssa.Function, a []Value) Value {
+			return mkConst(uint64(math.Float32bits(float32(a[0].(float64)))), 32)
+		},
+		"math.Float32frombits": func(in *Interp, c *frame, fn *ssa.Function, a []Value) Value {
+			t := a[0].(*Term)
+			if !t.IsConst() {
+				panic(unsupported{"math.Float32frombits of a symbolic value"})
+			}
+			return float64(math.Float32frombits(uint32(t.val)))
+		},
+		// the local time zone is UTC (no $TZ, no zone files in the model)
+		"time.initLocal": ixNop,
 
 		// ---- strconv fast paths (concrete) ----
 		"strconv.Itoa": ixItoa,
@@ -557,6 +582,10 @@ func (in *Interp) formatOne(c *frame, verb byte, flags string, arg Value, lossy 
 	}
 	if ifc.t == nil && ok {
 		return str("<nil>")
+	}
+	if ifc.t == lazyType || ifc.t == lazyOtherType {
+		*lossy = true
+		return str("?")
 	}
 	// error / Stringer
 	if ifc.t != nil && (verb == 'v' || verb == 's' || verb == 'q' || verb == 'w') {
